@@ -40,6 +40,8 @@ func NewFlagFiles(
 	extensions map[string]FileLoader,
 	opts ...ucfg.Option,
 ) *FlagValue {
+	// keep a copy: the caller may reuse its slice after creating the flag
+	opts = append([]ucfg.Option(nil), opts...)
 	return newFlagValue(cfg, opts, func(path string) (*ucfg.Config, error, error) {
 		ext := filepath.Ext(path)
 		loader := extensions[ext]
